@@ -310,6 +310,12 @@ def _run_engine_here(engine_name, fn, ctx):
         import traceback
 
         r = EngineResult(engine_name)
+        if _CKPT[0]:
+            try:
+                with open(_CKPT[0] + ".ckpt") as f:      # what the engine had established (TLC runs) before the exception
+                    r = EngineResult.from_json(json.load(f))
+            except Exception:
+                pass
         txt = traceback.format_exc()
         where = _raised_in_code_under_test(txt)
         if where:
